@@ -12,7 +12,9 @@ RULE = ("A generated history brings a bandit (any policy pair, n_jobs 1 or 2/thr
         "copy is taken; the original answers a burst of 1..4 predict / predict_expectations calls with 1..6 rows; "
         "all random-stream positions are copied original -> copy (path-wise); both then run the same generated "
         "continuation (partial_fit, fit, arm changes, warm_start, queries) and every output must be identical "
-        "(exact float equality: both sides execute the same arithmetic). Non-trivial: the burst has a call with "
+        "(exact float equality: both sides execute the same arithmetic); the continuation starts and ends with the "
+        "'policies' query (repr of the learning_policy / neighborhood_policy properties: hyper-parameters are state). "
+        "Distance metrics include NaN-capable ones (cosine, correlation, canberra, braycurtis, hamming). Non-trivial: the burst has a call with "
         ">= 2 rows and the continuation has a training op followed by a query.")
 ASSUMPTIONS = [
     "state that no later public call can reveal (e.g. Thompson's cached last draw) is outside the property",
